@@ -166,6 +166,9 @@ func genOp(ttl [3]int64, mix int) In {
 
 // Run executes one simulated run.
 func Run(seed uint64, index int64, o hx.Opts) *hx.Result {
+	if o.Scenario == "seqenum" {
+		return runSeqEnum(seed, index, o)
+	}
 	res := &hx.Result{Property: "C17", Index: index, Seed: seed, Extra: map[string]int64{}}
 	en := [rt.NumKinds]bool{}
 	en[rt.KGap], en[rt.KSched] = true, true
